@@ -31,7 +31,23 @@ static int lc(int c) { c &= 0xff; return (c >= 'A' && c <= 'Z') ? c + 32 : c; }
 int strncasecmp(const char *a, const char *b, size_t n)
 { size_t i; for (i = 0; i < 12; i++) if (i < n) { int x = lc(a[i]), y = lc(b[i]); if (x != y) return x - y; if (x == 0) return 0; } return 0; }
 int mpq_ILLis_lp_name_char(char c, int pos);
-static char *no_more(char *s, int size, void *src) { return 0; }
+static char g_src[LLEN + 2]; static int g_given = 1;
+static char *no_more(char *s, int size, void *src)
+{	/* fgets-like line source: delivers the prepared line once (WHICH=11 only), then end of file */
+	int i;
+	if (g_given) return 0;
+	g_given = 1;
+	for (i = 0; i < LLEN + 2; i++) { if (i < size - 1) s[i] = g_src[i]; if (g_src[i] == 0) break; }
+	return s;
+}
+int mpq_EGlpNumReadStrXc(mpq_t var, const char *str)
+{	/* contract of the number scanner as decided in lpnum/anybytes: it consumes between 0 and strlen(str) characters and leaves a rational */
+	int i, l = 0, r = nondet_int();
+	for (i = 0; i < LLEN + 2; i++) if (str[l] != 0) l++;
+	__CPROVER_assume(0 <= r && r <= l);
+	qsv_setnum(var, nondet_int());
+	return r;
+}
 void harness(void)
 {
 	mpq_ILLread_lp_state *st = qsv_alloc(sizeof *st);
@@ -60,6 +76,22 @@ void harness(void)
 	case 5: rv = mpq_ILLread_lp_state_sign(st, &sign); break;
 	case 6: rv = mpq_ILLtest_lp_state_sense(st, nondet_bool()); break;
 	case 7: mpq_ILLread_lp_state_prev_field(st); rv = 0; break;
+	case 9: {	/* C10: a bound value may be written as an infinity, optionally signed, in any letter case */
+		int neg = n >= 1 && st->line[0] == '-', sg = n >= 1 && (st->line[0] == '-' || st->line[0] == '+');
+		int isinf = off == 0 && n == 3 + sg && lc(st->line[sg]) == 'i' && lc(st->line[sg + 1]) == 'n' && lc(st->line[sg + 2]) == 'f';
+		mpq_init(st->bound_val); qsv_setnum(st->bound_val, 7);
+		rv = mpq_ILLread_lp_state_possible_bound_value(st);
+		COVER_MUST(isinf && neg, "minus_inf");
+		if (isinf) ASSERT(rv == 1 && NUMV(st->bound_val) == (neg ? -QSV_INF : QSV_INF), "C10: 'inf', '+inf' are plus infinity and '-inf' is minus infinity, in any letter case");
+		break; }
+	case 10: rv = mpq_ILLread_lp_state_value(st, &sign); break;
+	case 11: {	/* next_line: the line source delivers the prepared line; comment cut at a backslash */
+		for (i = 0; i < LLEN + 2; i++) g_src[i] = st->line[i];
+		st->line[0] = 0; st->p = st->line; g_given = 0;
+		rv = mpq_ILLread_lp_state_next_line(st);
+		COVER_MUST(rv == 0 && st->p > st->line, "line_with_leading_blank");
+		if (rv == 0) ASSERT(*st->p != 0 && *st->p != '\n' && *st->p != '\\' && *st->p != ' ' && *st->p != '\t', "C10/C11: a line that is delivered has its cursor on the first character that is not blank");
+		break; }
 	default: rv = mpq_ILLtest_lp_state_next_is(st, "<="); break;
 	}
 	if (!st->eof) {
